@@ -18,8 +18,17 @@ LENS = [0, 1, 2, 125, 126, 127, 128, 300, 65535, 65536, 65537, 200003]
 MB = ["é".encode(), "€".encode(), "𝄞".encode(), "κ".encode(), b"a", b"Z", b"0"]
 
 
-def payload_for(mid, n, binary):
+VOCAB = [b"alpha-alpha-alpha ", b"bravo_bravo_bravo ", b"charlie.charlie ", b"delta delta delta delta ", b"echo!", b"foxtrot-"]
+
+
+def payload_for(mid, n, binary, vocab=False):
     rng = random.Random(mid * 1000003 + n)
+    if vocab and n > 8:
+        # compressible payloads sharing a vocabulary across messages (exercises compression context reuse)
+        out = bytearray(("%d:" % mid).encode())
+        while len(out) < n:
+            out += rng.choice(VOCAB)
+        return bytes(out[:n])
     if binary:
         head = mid.to_bytes(4, "big")[:n]
         return head + bytes(rng.getrandbits(8) for _ in range(min(n - len(head), 4096))) * 1 + \
@@ -78,18 +87,21 @@ class Scenario:
             if rng.random() < 0.1:
                 sopts["utf8validateIncoming"] = False
                 copts["utf8validateIncoming"] = False
-        comp = {"c01": 0.3, "c12": 1.0, "c16": 0.5, "c15": 0.0}[self.profile]
+        comp = {"c01": 0.3, "c12": 1.0, "c16": 0.5, "c15": 0.0, "c16d": 1.0}[self.profile]
         self.cparams = None
         if rng.random() < comp:
             o["compress"] = True
             self.cparams = self.compression(sopts, copts)
         self.limit_who = None
-        if self.profile == "c16" or (self.profile == "c01" and rng.random() < 0.1):
+        if self.profile == "c16" or (self.profile == "c01" and not o["compress"] and rng.random() < 0.15):
             w = rng.choice(["C", "S"])
             lim = rng.choice([1, 125, 126, 1000, 65535, 65536])
             (copts if w == "C" else sopts)["maxMessagePayloadSize"] = lim
             o["limit"][w] = lim
             self.limit_who = w
+        o["dlimit"] = {"C": 0, "S": 0}
+        if self.profile == "c16d":
+            o["dlimit"] = dict(self.dlimit)
         self.o = o
         self.pair = wsx.Pair(sopts=sopts, copts=copts)
         ok = self.pair.handshake()
@@ -102,7 +114,7 @@ class Scenario:
         self.pair.st.read_pos = len(self.pair.st.written)
         self.pair.ct.read_pos = len(self.pair.ct.written)
         del self.pair.log[:]
-        self.trace.append(dict(ev="open", compress=o["compress"], limit=o["limit"], mask=o["mask"]))
+        self.trace.append(dict(ev="open", compress=o["compress"], limit=o["limit"], mask=o["mask"], dlimit=o["dlimit"]))
 
     def compression(self, sopts, copts):
         rng = self.rng
@@ -113,6 +125,17 @@ class Scenario:
         s_wb = rng.choice([0, 9, 11, 15])
         memlevel = rng.choice([None, 1, 8, 9])
         maxsz = None
+        self.dlimit = {"C": 0, "S": 0}
+        smax = cmax = None
+        if self.profile == "c16d":
+            # a decompression size limit at one receiving end
+            lim = rng.choice([16, 100, 1000, 65536])
+            if rng.random() < 0.5:
+                smax = lim
+                self.dlimit["S"] = lim
+            else:
+                cmax = lim
+                self.dlimit["C"] = lim
 
         def accept(offers):
             for of in offers:
@@ -121,11 +144,11 @@ class Scenario:
                         of,
                         request_no_context_takeover=s_nct and of.accept_no_context_takeover,
                         request_max_window_bits=s_wb if of.accept_max_window_bits else 0,
-                        mem_level=memlevel, max_message_size=maxsz)
+                        mem_level=memlevel, max_message_size=smax)
 
         def caccept(resp):
             if isinstance(resp, PerMessageDeflateResponse):
-                return PerMessageDeflateResponseAccept(resp, mem_level=memlevel, max_message_size=maxsz)
+                return PerMessageDeflateResponseAccept(resp, mem_level=memlevel, max_message_size=cmax)
 
         sopts["perMessageCompressionAccept"] = accept
         copts["perMessageCompressionOffers"] = [offer]
@@ -164,14 +187,18 @@ class Scenario:
                 else:
                     self.trace.append(dict(ev="deliver", to=to, id=0, bin=isbin, len=len(payload), same=False))
             elif e[0] == "escape":
-                self.problems.append("exception escaped data_received at %s: %s" % (e[1], e[2]))
+                self.trace.append(dict(ev="escape", at=e[1], exc=e[2]))
             elif e[0] == "onClose":
-                self.problems.append("connection closed during scenario: %r" % (e[2:],))
+                self.trace.append(dict(ev="closed", at=e[1], clean=e[2], code=e[3] if isinstance(e[3], int) else 0))
         del self.pair.log[:]
 
     # ---- operations
     def pick_len(self, w):
         rng = self.rng
+        other_ = "S" if w == "C" else "C"
+        if self.o.get("dlimit", {}).get(other_):
+            lim = self.o["dlimit"][other_]
+            return rng.choice([lim - 1, lim, lim + 1, lim * 3, 5, lim // 2])
         if self.o["limit"][w]:
             lim = self.o["limit"][w]
             return rng.choice([max(0, lim - 1), lim, lim + 1, lim * 3 + 1, 0, 1])
@@ -190,7 +217,7 @@ class Scenario:
         binary = rng.random() < 0.5
         mid = self.next_id
         self.next_id += 1
-        payload = payload_for(mid, n, binary)
+        payload = payload_for(mid, n, binary, vocab=self.o["compress"] and rng.random() < 0.7)
         dnc = self.o["compress"] and rng.random() < 0.25
         apis = ["msg", "msg", "msg", "prepared", "frames", "stream"]
         if self.o["limit"][w]:
@@ -308,7 +335,7 @@ class Scenario:
         self.collect()
         ok_state = self.pair.s.state == WSP.STATE_OPEN and self.pair.c.state == WSP.STATE_OPEN
         if not ok_state:
-            self.problems.append("endpoint left OPEN: S=%s C=%s" % (wsx.STATE[self.pair.s.state], wsx.STATE[self.pair.c.state]))
+            self.trace.append(dict(ev="closed", at="?", clean=False, code=0))
         self.trace.append(dict(ev="end"))
         streams = {"C": bytes(self.pair.ct.written), "S": bytes(self.pair.st.written)}
         fw.reset()
